@@ -42,6 +42,7 @@ type World struct {
 	ghostFields map[string]map[string]string // type key -> ghost field -> go type name
 	pools     map[string]string
 	poolPkg   map[string]string
+	poolInv   map[string]Clause // pool invariants over `it`
 	contractFiles []string
 	staleClauses []string
 }
